@@ -272,6 +272,26 @@ def c03(run, replay=None):
         if o["out"] or o["rc"] != 0 or o["stdout"].count("\n") < 5:
             run.violation("rash %s: the run modified the tree (out/ now holds %r) or did not complete (rc %r)" % (" ".join(ra), o["out"], o["rc"]),
                           dict(script=script, rash_args=ra, observed=o))
+    # the task's own check_mode on tasks that run under `become` (another execution path: the module runs in a forked
+    # child, or after a privilege drop): the tree is writable for the target user, nothing may appear in it
+    import pwd
+    try:
+        pwd.getpwnam("nobody")
+        can_become = os.geteuid() == 0
+    except KeyError:
+        can_become = False
+    if can_become:
+        kw = "  check_mode: true\n  become: true\n  become_user: nobody\n"
+        tasks_b = ["- copy:\n    content: new\n    dest: ROOT/out/f\n", "- file:\n    path: ROOT/out/d/e\n    state: directory\n", "- file:\n    path: ROOT/out/t\n    state: touch\n    mode: \"0600\"\n",
+                   "- template:\n    src: ROOT/main.rh\n    dest: ROOT/out/tpl\n", "- copy:\n    src: ROOT/main.rh\n    dest: ROOT/out/c2\n    mode: \"0640\"\n",
+                   "- file:\n    path: ROOT/out\n    mode: \"0700\"\n    state: directory\n"]
+        for sel in ([0], [1], [2], [3], [4], [5], [0, 1, 2, 3, 4]):
+            sb = "#!/usr/bin/env rash\n" + "".join(tasks_b[i] + kw for i in sel)
+            for ra in ([], ["--check"]):
+                o = E.run_impls([dict(files={"main.rh": dict(raw=sb)}, rash_args=ra, world_writable=True)], timeout=20)[0]
+                if o["out"] or o["rc"] != 0:
+                    run.violation("check_mode: true on a task run under become (rash %s): out/ now holds %r, rc %r" % (" ".join(ra), o["out"], o["rc"]),
+                                  dict(script=sb, rash_args=ra, observed=o))
     # special files: check mode must leave them alone too
     sp = [(nodes, [t], chk) for nodes, t in special_cases() for chk in ("global", "task")]
     for (nodes, ts, chk), io in zip(sp, run_special(sp)):
